@@ -76,6 +76,17 @@ func historyCase(e *emitter, rg *rng, nops int) {
 				cut := 1 + rg.intn(len(f)-1)
 				chunk, pendingTail[ci] = f[:cut], f[cut:]
 				class = "hist/stream-partial"
+			case pendingTail[ci] == nil && rg.intn(5) == 0:
+				// a well-framed, gzip-flagged frame whose compressed body is corrupt: the decode fails AFTER the whole frame was consumed
+				f, g := genValidFrame(rg, c.version, true)
+				for tries := 0; g == nil && tries < 40; tries++ {
+					f, g = genValidFrame(rg, c.version, true)
+				}
+				if off, n, ok := bodySection(c.version, f); g != nil && ok && n > 12 {
+					f[off+10+rg.intn(n-10)] ^= 0x5a
+				}
+				chunk = f
+				class = "hist/stream-corrupt-gzip"
 			case pendingTail[ci] == nil && rg.intn(6) == 0:
 				chunk = rg.bytes(1 + rg.intn(12))
 				chunk[0] = chunk[0]&0xd0 | byte(4+rg.intn(10)) // unknown type nibble: the decode fails
